@@ -44,12 +44,12 @@ theorem prefix_append_single {α : Type} (l : List α) (a : α) : l <+: l ++ [a]
 /-- a new cell on both sides -/
 theorem WRel.alloc {env : Env} {η : Hp} {w : World} {gw : GWorld} (hw : WRel env η w gw) {v : Val} {gv : GVal} {e : Ty}
     (hv : HasTy env η v e) (hg : toGV env η v = some gv) :
-    η.le ⟨η.tys ++ [e], η.locs ++ [gw.heap.size]⟩ ∧
-    WRel env ⟨η.tys ++ [e], η.locs ++ [gw.heap.size]⟩ { w with store := w.store.push v }
+    η.le ⟨η.tys ++ [e], η.locs ++ [gw.heap.size], η.fns⟩ ∧
+    WRel env ⟨η.tys ++ [e], η.locs ++ [gw.heap.size], η.fns⟩ { w with store := w.store.push v }
       { gw with heap := gw.heap.push (refCell e gv) } ∧
-    toGV env ⟨η.tys ++ [e], η.locs ++ [gw.heap.size]⟩ (.ref w.store.size) = some (.ptr gw.heap.size) ∧
-    HasTy env ⟨η.tys ++ [e], η.locs ++ [gw.heap.size]⟩ (.ref w.store.size) (.ref e) := by
-  have hle : η.le ⟨η.tys ++ [e], η.locs ++ [gw.heap.size]⟩ := ⟨prefix_append_single _ _, prefix_append_single _ _⟩
+    toGV env ⟨η.tys ++ [e], η.locs ++ [gw.heap.size], η.fns⟩ (.ref w.store.size) = some (.ptr gw.heap.size) ∧
+    HasTy env ⟨η.tys ++ [e], η.locs ++ [gw.heap.size], η.fns⟩ (.ref w.store.size) (.ref e) := by
+  have hle : η.le ⟨η.tys ++ [e], η.locs ++ [gw.heap.size], η.fns⟩ := ⟨prefix_append_single _ _, prefix_append_single _ _, rfl⟩
   have hT : (η.tys ++ [e])[w.store.size]? = some e := by
     rw [← hw.lenT]; simp
   have hL : (η.locs ++ [gw.heap.size])[w.store.size]? = some gw.heap.size := by
@@ -74,7 +74,7 @@ theorem WRel.alloc {env : Env} {η : Hp} {w : World} {gw : GWorld} (hw : WRel en
       simp
     · simp only [hls, if_false] at hl
       obtain ⟨e', gl, gv', h1, h2, h3, h4, h5⟩ := hw.cells l v' hl
-      refine ⟨e', gl, gv', prefix_get hle.1 h1, prefix_get hle.2 h2, HasTy_mono hle _ _ h3, toGV_mono hle _ _ h4, ?_⟩
+      refine ⟨e', gl, gv', prefix_get hle.1 h1, prefix_get hle.2.1 h2, HasTy_mono hle _ _ h3, toGV_mono hle _ _ h4, ?_⟩
       have hb : gl < gw.heap.size := hw.bound gl (List.mem_of_getElem? h2)
       simp only [Array.getElem?_push]
       rw [if_neg (by omega)]; exact h5
